@@ -242,7 +242,8 @@ def gen_invalid(rng, v, cfg, serial, kinds_ops):
         if c == "source_to_other":
             t = rng.choice(v.sources)
             n = t if rng.random() < 0.5 else fresh
-            return {"op": o, "name": t, "comp": new_comp(rng.choice(H.NONLOAD + H.LOADS), n, serial), "group": g, "rail": ""}, c
+            k = "pmux" if rng.random() < 0.3 else rng.choice(H.NONLOAD + H.LOADS)      # a root can only be a Source - not even the other "special" kind
+            return {"op": o, "name": t, "comp": new_comp(k, n, serial), "group": g, "rail": ""}, c
         if c == "mux_to_other" and v.muxes:
             t = v.muxes[0]
             n = t if rng.random() < 0.5 else fresh
